@@ -187,6 +187,7 @@ def run(ctx):
         dist[kind] += 1
     texts = common.corpus('parse') + texts
     res = {'disagreements': [], 'failures': []}
+    res['failures'] += common.threshold_failures('C09', ctx.quick())
     shapes = set()
     ngroups = collections.Counter()
     for s in texts:
@@ -236,4 +237,7 @@ def shrink(f):
 
 
 def replay(payload):
+    _f = payload.get('failure') or {}
+    if _f.get('threshold_input'):
+        return common.threshold_replay('C09', _f)
     return common.replay_with(oracle, payload)
